@@ -331,13 +331,13 @@ func gen(a hx.Args) {
 		bmins := []int64{0, piv, piv + 1}
 		umaxs := []string{"nil", "miss", hx.Itoa(piv - 1), hx.Itoa(piv), hx.Itoa(cm + 1)}
 		umins := []string{"nil", hx.Itoa(piv - 1), hx.Itoa(piv), hx.Itoa(piv + 1)}
-		pinned := kn == "findcoord2" || kn == "offsetfetch2" // the two kinds with internal pins: their whole grid in both tiers
-		if a.Tier != "thorough" && !pinned { // quick: a seeded fifth of the grid
+		pinned := kn == "findcoord2" || kn == "offsetfetch2" // the two kinds with internal pins
+		if a.Tier != "thorough" { // quick: a seeded fifth of the grid; for the pinned kinds every case without a user maximum
 			for _, bmax := range bmaxs {
 				for _, bmin := range bmins {
 					for _, umax := range umaxs {
 						for _, umin := range umins {
-							if r.Intn(5) != 0 {
+							if r.Intn(5) != 0 && !(pinned && umax == "nil") {
 								continue
 							}
 							cfg{kn, k.vias[len(k.vias)-1], "-", "adv", bmin, bmax, umax, umin, k.key == 17 || k.key == 36}.emit()
